@@ -110,7 +110,7 @@ CLAIMS = {
             "host_match_iff, c18_groups, c18_dispatch / c18_not_comment_not_cosmetic. Tie: NewHostRule, NewRule and a real DNSEngine (listed, near-miss, hash-colliding "
             "and unlisted names; V4/V6 group).", TECH, TB),
     "C19": (True, "proof",
-            "c19_nopanic, c19_subset (every schedule of queries and close events: answer is a sublist of the fault-free answer), c19_truthful, c19_cached / "
+            "c19_nopanic, c19_subset (every schedule of queries and close events: every returned rule is a member of the fault-free answer; the sublist form is c19_composed, sequential only), c19_truthful, c19_cached / "
             "c19_cache_persists. Tie: file-backed lists on real temp files, Close() / closed descriptor before every query k, no panic, results within a linear-scan "
             "oracle, cached rules still served, the model predicts the degraded answers and cache sizes.", TECH, TB),
     "C20": (True, "proof",
@@ -148,6 +148,8 @@ NOTE_EXTRA["C08"] = (" 'Same modifier values' is read as Go compares them: $doma
                      "(DESIGN 8.5); both halves are theorems (Props/C08Order) and pinned by l.c08order.")
 NOTE_EXTRA["C09"] = (" 'Empty value' is read on the parsed record: the keyword NOERROR and record types without a value parser (NS, SOA, ...) "
                      "parse to a value-less record (DESIGN 8.5).")
+NOTE_EXTRA["C17"] += (" The reference is the Public Suffix List library as it is: it is case-sensitive and IP-unaware (1.2.3.4 -> 3.4, A.CO.UK -> CO.UK), "
+                      "and NewRequest agrees with it (DESIGN 8.5).")
 NOTE_EXTRA["C20"] = " Plain and gzip bodies, as in the property; other Content-Encoding values are outside it (DESIGN 8.5)."
 
 NA_REASON = "check under construction in this round (model/spec/theorems and correspondence ops being built; see DESIGN.md section 4); not claimed yet"
